@@ -110,20 +110,26 @@ fn expected_token_str(v: &[String]) -> String {
 #[cfg(feature = "verif-hooks")]
 thread_local! {
     static VERIF_EXPECTED: std::cell::RefCell<Vec<Vec<String>>> = std::cell::RefCell::new(Vec::new());
+    static VERIF_LOCATIONS: std::cell::RefCell<Vec<(usize, usize)>> = std::cell::RefCell::new(Vec::new());
 }
 
-/// Verification hook: record the raw expectation vector of each parse error handed to the formatter
+/// Verification hook: record the raw expectation vector (and the location) of each parse error handed to the formatter
 #[cfg(feature = "verif-hooks")]
 fn verif_record_expected(e: &ParseError) {
     let v = match e {
-        lalrpop_util::ParseError::UnrecognizedEOF { expected, .. } => Some(expected.clone()),
-        lalrpop_util::ParseError::UnrecognizedToken { expected, .. } => Some(expected.clone()),
-        lalrpop_util::ParseError::InvalidToken { .. } => Some(Vec::new()),
-        lalrpop_util::ParseError::ExtraToken { .. } => Some(Vec::new()),
+        lalrpop_util::ParseError::UnrecognizedEOF { expected, location } => {
+            Some((expected.clone(), (*location, *location)))
+        }
+        lalrpop_util::ParseError::UnrecognizedToken { expected, token } => {
+            Some((expected.clone(), (token.0, token.2)))
+        }
+        lalrpop_util::ParseError::InvalidToken { location } => Some((Vec::new(), (*location, *location))),
+        lalrpop_util::ParseError::ExtraToken { token } => Some((Vec::new(), (token.0, token.2))),
         lalrpop_util::ParseError::User { .. } => None,
     };
-    if let Some(v) = v {
+    if let Some((v, loc)) = v {
         VERIF_EXPECTED.with(|r| r.borrow_mut().push(v));
+        VERIF_LOCATIONS.with(|r| r.borrow_mut().push(loc));
     }
 }
 
@@ -132,4 +138,11 @@ fn verif_record_expected(e: &ParseError) {
 #[cfg(feature = "verif-hooks")]
 pub fn verif_take_expected() -> Vec<Vec<String>> {
     VERIF_EXPECTED.with(|r| std::mem::take(&mut *r.borrow_mut()))
+}
+
+/// Verification hook: take (and clear) the (start, end) offsets of the parse errors recorded on this
+/// thread, parallel to `verif_take_expected`
+#[cfg(feature = "verif-hooks")]
+pub fn verif_take_locations() -> Vec<(usize, usize)> {
+    VERIF_LOCATIONS.with(|r| std::mem::take(&mut *r.borrow_mut()))
 }
